@@ -102,6 +102,14 @@ func c01Directed() []*gen.Prog {
 		prog(decl("s", I(0)), &gen.Stmt{K: "for", Name: "it", E: &gen.Expr{K: "arr", A: []*gen.Expr{I(1), I(2)}}, Body: []*gen.Stmt{asg("s", V("it"))}}, ret(V("it"))),                                       // loop variable gone after the loop: error
 		prog(decl("s", I(0)), &gen.Stmt{K: "while", Name: "w", E: bin("<", V("w"), I(3)), Body: []*gen.Stmt{asg("w", bin("+", V("w"), I(1))), decl("t", V("w")), asg("s", bin("+", V("s"), V("t")))}}, ret(V("s"))),
 	)
+	// object iteration: every key once, in a fixed (sorted) order
+	objLit := &gen.Expr{K: "obj", Keys: []string{"zeta", "alpha", "mid", "b", "a"}, A: []*gen.Expr{I(1), I(2), I(3), I(4), I(5)}}
+	S := func(s string) *gen.Expr { return &gen.Expr{K: "str", S: s} }
+	out = append(out,
+		prog(decl("o", objLit), decl("acc", S("")), &gen.Stmt{K: "fori", Name: "k", Name2: "v", E: V("o"), Body: []*gen.Stmt{asg("acc", bin("+", V("acc"), V("k")))}}, ret(V("acc"))),
+		prog(decl("o", objLit), decl("sum", I(0)), &gen.Stmt{K: "for", Name: "v", E: V("o"), Body: []*gen.Stmt{asg("sum", bin("+", bin("*", V("sum"), I(10)), V("v")))}}, ret(V("sum"))),
+		prog(decl("o", objLit), &gen.Stmt{K: "fori", Name: "k", Name2: "v", E: V("o"), Body: []*gen.Stmt{ret(V("k"))}}, ret(S("none"))),
+	)
 	// (4) control flow: break / continue / nested return / switch without fall-through
 	loop := func(body ...*gen.Stmt) *gen.Stmt {
 		return &gen.Stmt{K: "fori", Name: "i", Name2: "v", E: &gen.Expr{K: "arr", A: []*gen.Expr{I(10), I(20), I(30), I(40)}}, Body: body}
